@@ -2,6 +2,7 @@ package sim
 
 import (
 	"fmt"
+	"os"
 	"runtime"
 	"sync"
 	"testing"
@@ -46,6 +47,11 @@ type stormGuard struct {
 }
 
 func (g *stormGuard) handler(name string, arg any) {
+	if os.Getenv("VERIF_HOOKLOG") != "" {
+		g.mtx.Lock()
+		g.tr.HookLog = append(g.tr.HookLog, fmt.Sprintf("%s %s %p %v", time.Now().Format("15:04:05.000"), name, arg, arg))
+		g.mtx.Unlock()
+	}
 	if name != "flush.enter" {
 		return
 	}
